@@ -93,6 +93,8 @@ type model struct {
 	evs    []Ev
 	arr    map[int]*arrival
 	peerOf func(string) int
+	// peers certainly rejected by a REJECT_SENDER offer verdict, by offer-ret event number
+	offerRejects map[int][]int
 
 	attempts  []*attempt
 	maxStates int
@@ -334,7 +336,11 @@ func (m *model) run(strict bool) *modelFail {
 			}
 		case "offer-ret":
 			if e.M != "ACCEPT" {
-				set = m.pushSteps(set, m.terminalSteps(e, false))
+				var st []mstep
+				for _, p := range m.offerRejects[e.N] {
+					st = append(st, mstep{op: "reject", peer: p})
+				}
+				set = m.pushSteps(set, append(st, m.terminalSteps(e, false)...))
 			}
 		case "apply-call":
 			m.checked++
